@@ -62,7 +62,7 @@ PROPS = {
         "jobs": {"quick": 6, "thorough": 6},
     },
     "C16": {
-        "verus_units": ["live"],
+        "verus_units": ["live", "evict"],
         "trusted": COMMON_TRUSTED,
         "assumptions": [
             "fewer than 2^32 consecutive failures per peer (u32 counter)",
